@@ -78,11 +78,6 @@ end
 
 /-! ## programs -/
 
-/-- the function constant of a definition: the code bytes and line table the compiler stored
-in it (`code`, `lines`: its identity — `==` on functions compares them), and the declaration's
-`num_locals`, `num_params`, line -/
-def mkFd (code lines : List Nat) (d : FDecl) : FnDef := ⟨code, lines, d.nl, d.np, d.line⟩
-
 inductive FTop where
   | stmt (s : FStmt)
   /-- `fn f(…) {…}` / `let f = fn(…) {…};` — `l`: the line of the `DefineGlobal` -/
@@ -116,98 +111,273 @@ def lookupFd {α : Type} (fd : FnDef) : List (FnDef × α) → Option α
   | [] => none
   | (key, a) :: rest => if fd = key then some a else lookupFd fd rest
 
-/-- the declarations of a program, by function constant -/
-def declsT : List FTop → List (FnDef × FDecl)
+/-! ### the functions of a program
+
+Every function literal of a program — the top-level definitions and the literals nested in
+function bodies and in top-level expressions, at any depth — with its function constant, its
+declaration and the pool index at which the constants of its body start. -/
+
+abbrev FnEntry := FnDef × FDecl × Nat
+
+mutual
+def fnsE (k : Nat) : FExpr → List FnEntry
+  | .lit .. | .tru _ | .fls _ | .null _ | .gget .. | .lget .. | .curr _ | .fget .. => []
+  | .un _ _ e => fnsE k e
+  | .bin _ _ a b => fnsE k a ++ fnsE (k + (constsE a).length) b
+  | .lt _ a b | .le _ a b => fnsE k b ++ fnsE (k + (constsE b).length) a
+  | .and _ a b | .or _ a b => fnsE k a ++ fnsE (k + (constsE a).length) b
+  | .ite _ c t e => fnsE k c ++ fnsE (k + (constsE c).length) t ++ fnsE (k + (constsE c).length + (constsE t).length) e
+  | .gset _ _ e | .lset _ _ e | .fset _ _ e => fnsE k e
+  | .matchE _ s arms => fnsE k s ++ fnsArms (k + (constsE s).length) arms
+  | .call _ f args => fnsE k f ++ fnsArgs (k + (constsE f).length) args
+  | .mkclos l code lines np nl body _ => fnsP k body ++ [(mkFd code lines ⟨np, nl, body, l⟩, ⟨np, nl, body, l⟩, k)]
+def fnsArms (k : Nat) : FArms → List FnEntry
+  | .last _ _ d => fnsE k d
+  | .cons _ pats body rest =>
+    fnsE (k + (patsConsts (pats.map erasePat)).length) body ++
+      fnsArms (k + (patsConsts (pats.map erasePat)).length + (constsE body).length) rest
+def fnsArgs (k : Nat) : FArgs → List FnEntry
+  | .nil => []
+  | .cons a rest => fnsE k a ++ fnsArgs (k + (constsE a).length) rest
+def fnsS (k : Nat) : FStmt → List FnEntry
+  | .letG _ _ e | .letL _ _ e | .expr _ e | .ret _ e => fnsE k e
+  | .block _ body => fnsP k body
+  | .whileS _ _ c body => fnsE k c ++ fnsP (k + (constsE c).length) body
+  | .loopS _ _ body => fnsP k body
+  | .breakS .. | .continueS .. | .retN _ => []
+  | .ifS _ _ c thn els => fnsE k c ++ fnsP (k + (constsE c).length) thn ++ fnsP (k + (constsE c).length + (constsP thn).length) els
+def fnsP (k : Nat) : List FStmt → List FnEntry
   | [] => []
-  | .stmt _ :: rest => declsT rest
-  | .fnDef _ _ code lines d :: rest => (mkFd code lines d, d) :: declsT rest
-  | .fnSet _ _ _ code lines d :: rest => (mkFd code lines d, d) :: declsT rest
+  | s :: rest => fnsS k s ++ fnsP (k + (constsS s).length) rest
+end
+
+def fnsTop (k : Nat) : FTop → List FnEntry
+  | .stmt s => fnsS k s
+  | .fnDef _ _ code lines d => fnsP k d.body ++ [(mkFd code lines d, d, k)]
+  | .fnSet _ _ _ code lines d => fnsP k d.body ++ [(mkFd code lines d, d, k)]
+
+def fnsT (k : Nat) : List FTop → List FnEntry
+  | [] => []
+  | t :: rest => fnsTop k t ++ fnsT (k + (constsTop t).length) rest
+
+/-- the declarations of a program, by function constant -/
+def declsT (T : List FTop) : List (FnDef × FDecl) := (fnsT 0 T).map (fun x => (x.1, x.2.1))
 
 /-- the code of the function constants of a program whose constants start at pool index `k` -/
-def codesT (k : Nat) : List FTop → List (FnDef × List Instr)
-  | [] => []
-  | .stmt s :: rest => codesT (k + (constsS s).length) rest
-  | .fnDef _ _ code lines d :: rest => (mkFd code lines d, compileFn k d) :: codesT (k + (constsP d.body).length + 1) rest
-  | .fnSet _ _ _ code lines d :: rest => (mkFd code lines d, compileFn k d) :: codesT (k + (constsP d.body).length + 1) rest
+def codesT (k : Nat) (T : List FTop) : List (FnDef × List Instr) := (fnsT k T).map (fun x => (x.1, compileFn x.2.2 x.2.1))
 
 def phiT (T : List FTop) : FnDef → Option FDecl := fun fd => lookupFd fd (declsT T)
 def codeT (T : List FTop) : FnDef → Option (List Instr) := fun fd => lookupFd fd (codesT 0 T)
 
 /-- reference evaluation of a program: the top-level statements in order (each must end
-normally), a definition stores the closure of its function constant in its global -/
-def evalT (Φ : FnDef → Option FDecl) (fuel : Nat) : List Val → List FTop → Option (List Val)
-  | g, [] => some g
-  | g, .stmt s :: rest =>
-    (match evalS Φ fuel none ⟨[], g⟩ s with
-     | some (σ1, .normal, _) => evalT Φ fuel σ1.g rest
+normally), a definition stores a new closure of its function constant (no captured values) in
+its global; `g` the globals, `h` the closure objects -/
+def evalT (Φ : FnDef → Option FDecl) (fuel : Nat) : List Val → List (List Val) → List FTop → Option (List Val × List (List Val))
+  | g, h, [] => some (g, h)
+  | g, h, .stmt s :: rest =>
+    (match evalS Φ fuel none ⟨[], g, h⟩ s with
+     | some (σ1, .normal, _) => evalT Φ fuel σ1.g σ1.h rest
      | _ => none)
-  | g, .fnDef _ gi code lines d :: rest =>
-    if gi < g.length then evalT Φ fuel (g.set gi (.clos (mkFd code lines d) [] 0)) rest else none
-  | g, .fnSet _ _ gi code lines d :: rest =>
-    if gi < g.length then evalT Φ fuel (g.set gi (.clos (mkFd code lines d) [] 0)) rest else none
+  | g, h, .fnDef _ gi code lines d :: rest =>
+    if gi < g.length then evalT Φ fuel (g.set gi (.clos (mkFd code lines d) [] h.length)) (h ++ [[]]) rest else none
+  | g, h, .fnSet _ _ gi code lines d :: rest =>
+    if gi < g.length then evalT Φ fuel (g.set gi (.clos (mkFd code lines d) [] h.length)) (h ++ [[]]) rest else none
 
 /-! ## the compiled program is linked -/
 
-theorem linked_aux : ∀ (T : List FTop) (k : Nat) (K : List Val), poolAt K k (constsT T) →
-    ∀ fd d, lookupFd fd (declsT T) = some d →
-      ∃ kd, lookupFd fd (codesT k T) = some (compileFn kd d) ∧ poolAt K kd (constsP d.body) ∧
-        fd.numParams = d.np ∧ fd.numLocals = d.nl
-  | [], _, _, _, fd, d, h => by simp [declsT, lookupFd] at h
-  | .stmt s :: rest, k, K, hp, fd, d, h => by
-    simp only [constsT, constsTop] at hp
-    simp only [declsT] at h
-    simp only [codesT]
-    exact linked_aux rest _ K (poolAt_right hp) fd d h
-  | .fnDef l gi code lines d0 :: rest, k, K, hp, fd, d, h => by
-    simp only [constsT, constsTop] at hp
-    simp only [declsT, lookupFd] at h
-    simp only [codesT, lookupFd]
-    by_cases hfd : fd = mkFd code lines d0
-    · simp only [hfd, if_true, Option.some.injEq] at h ⊢
-      subst h
-      exact ⟨k, rfl, poolAt_left (poolAt_left hp), rfl, rfl⟩
-    · simp only [hfd, if_false] at h ⊢
-      have := poolAt_right hp
-      simp only [List.length_append, List.length_cons, List.length_nil] at this
-      exact linked_aux rest _ K (by simpa [Nat.add_assoc] using this) fd d h
-  | .fnSet ls l gi code lines d0 :: rest, k, K, hp, fd, d, h => by
-    simp only [constsT, constsTop] at hp
-    simp only [declsT, lookupFd] at h
-    simp only [codesT, lookupFd]
-    by_cases hfd : fd = mkFd code lines d0
-    · simp only [hfd, if_true, Option.some.injEq] at h ⊢
-      subst h
-      exact ⟨k, rfl, poolAt_left (poolAt_left hp), rfl, rfl⟩
-    · simp only [hfd, if_false] at h ⊢
-      have := poolAt_right hp
-      simp only [List.length_append, List.length_cons, List.length_nil] at this
-      exact linked_aux rest _ K (by simpa [Nat.add_assoc] using this) fd d h
+/-- an entry whose body constants are in the pool where its code expects them -/
+def GoodEntry (K : List Val) (x : FnEntry) : Prop :=
+  poolAt K x.2.2 (constsP x.2.1.body) ∧ x.1.numParams = x.2.1.np ∧ x.1.numLocals = x.2.1.nl
 
-/-- the function constants, declarations and code of a compiled program are linked -/
+theorem poolAt_shift {K : List Val} {k a b : Nat} {cs : List Val} (h : poolAt K (k + a + b) cs) : poolAt K (k + (a + b)) cs := by
+  rw [← Nat.add_assoc]; exact h
+
+mutual
+theorem fnsE_good (K : List Val) : ∀ (e : FExpr) (k : Nat), poolAt K k (constsE e) → ∀ x ∈ fnsE k e, GoodEntry K x
+  | .lit .., _, _, x, hx | .tru _, _, _, x, hx | .fls _, _, _, x, hx | .null _, _, _, x, hx | .gget .., _, _, x, hx
+  | .lget .., _, _, x, hx | .curr _, _, _, x, hx | .fget .., _, _, x, hx => by simp [fnsE] at hx
+  | .un _ _ e, k, hp, x, hx => fnsE_good K e k (by simpa [constsE] using hp) x (by simpa [fnsE] using hx)
+  | .gset _ _ e, k, hp, x, hx => fnsE_good K e k (by simpa [constsE] using hp) x (by simpa [fnsE] using hx)
+  | .lset _ _ e, k, hp, x, hx => fnsE_good K e k (by simpa [constsE] using hp) x (by simpa [fnsE] using hx)
+  | .fset _ _ e, k, hp, x, hx => fnsE_good K e k (by simpa [constsE] using hp) x (by simpa [fnsE] using hx)
+  | .bin _ _ a b, k, hp, x, hx => by
+    simp only [constsE] at hp
+    simp only [fnsE, List.mem_append] at hx
+    rcases hx with hx | hx
+    · exact fnsE_good K a k (poolAt_left hp) x hx
+    · exact fnsE_good K b _ (poolAt_right hp) x hx
+  | .and _ a b, k, hp, x, hx => by
+    simp only [constsE] at hp
+    simp only [fnsE, List.mem_append] at hx
+    rcases hx with hx | hx
+    · exact fnsE_good K a k (poolAt_left hp) x hx
+    · exact fnsE_good K b _ (poolAt_right hp) x hx
+  | .or _ a b, k, hp, x, hx => by
+    simp only [constsE] at hp
+    simp only [fnsE, List.mem_append] at hx
+    rcases hx with hx | hx
+    · exact fnsE_good K a k (poolAt_left hp) x hx
+    · exact fnsE_good K b _ (poolAt_right hp) x hx
+  | .lt _ a b, k, hp, x, hx => by
+    simp only [constsE] at hp
+    simp only [fnsE, List.mem_append] at hx
+    rcases hx with hx | hx
+    · exact fnsE_good K b k (poolAt_left hp) x hx
+    · exact fnsE_good K a _ (poolAt_right hp) x hx
+  | .le _ a b, k, hp, x, hx => by
+    simp only [constsE] at hp
+    simp only [fnsE, List.mem_append] at hx
+    rcases hx with hx | hx
+    · exact fnsE_good K b k (poolAt_left hp) x hx
+    · exact fnsE_good K a _ (poolAt_right hp) x hx
+  | .ite _ c t e, k, hp, x, hx => by
+    simp only [constsE] at hp
+    simp only [fnsE, List.mem_append] at hx
+    rcases hx with (hx | hx) | hx
+    · exact fnsE_good K c k (poolAt_left (poolAt_left hp)) x hx
+    · exact fnsE_good K t _ (poolAt_right (poolAt_left hp)) x hx
+    · refine fnsE_good K e _ ?_ x hx
+      have := poolAt_right hp
+      simpa [Nat.add_assoc] using this
+  | .matchE _ s arms, k, hp, x, hx => by
+    simp only [constsE] at hp
+    simp only [fnsE, List.mem_append] at hx
+    rcases hx with hx | hx
+    · exact fnsE_good K s k (poolAt_left hp) x hx
+    · exact fnsArms_good K arms _ (poolAt_right hp) x hx
+  | .call _ f args, k, hp, x, hx => by
+    simp only [constsE] at hp
+    simp only [fnsE, List.mem_append] at hx
+    rcases hx with hx | hx
+    · exact fnsE_good K f k (poolAt_left hp) x hx
+    · exact fnsArgs_good K args _ (poolAt_right hp) x hx
+  | .mkclos l code lines np nl body caps, k, hp, x, hx => by
+    simp only [constsE] at hp
+    simp only [fnsE, List.mem_append, List.mem_singleton] at hx
+    rcases hx with hx | hx
+    · exact fnsP_good K body k (poolAt_left hp) x hx
+    · subst hx
+      exact ⟨poolAt_left hp, rfl, rfl⟩
+theorem fnsArms_good (K : List Val) : ∀ (arms : FArms) (k : Nat), poolAt K k (constsArms arms) → ∀ x ∈ fnsArms k arms, GoodEntry K x
+  | .last _ _ d, k, hp, x, hx => fnsE_good K d k (by simpa [constsArms] using hp) x (by simpa [fnsArms] using hx)
+  | .cons _ pats body rest, k, hp, x, hx => by
+    simp only [constsArms] at hp
+    simp only [fnsArms, List.mem_append] at hx
+    rcases hx with hx | hx
+    · exact fnsE_good K body _ (poolAt_right (poolAt_left hp)) x hx
+    · refine fnsArms_good K rest _ ?_ x hx
+      have := poolAt_right hp
+      simpa [Nat.add_assoc] using this
+theorem fnsArgs_good (K : List Val) : ∀ (args : FArgs) (k : Nat), poolAt K k (constsArgs args) → ∀ x ∈ fnsArgs k args, GoodEntry K x
+  | .nil, _, _, x, hx => by simp [fnsArgs] at hx
+  | .cons a rest, k, hp, x, hx => by
+    simp only [constsArgs] at hp
+    simp only [fnsArgs, List.mem_append] at hx
+    rcases hx with hx | hx
+    · exact fnsE_good K a k (poolAt_left hp) x hx
+    · exact fnsArgs_good K rest _ (poolAt_right hp) x hx
+theorem fnsS_good (K : List Val) : ∀ (s : FStmt) (k : Nat), poolAt K k (constsS s) → ∀ x ∈ fnsS k s, GoodEntry K x
+  | .letG _ _ e, k, hp, x, hx => fnsE_good K e k (by simpa [constsS] using hp) x (by simpa [fnsS] using hx)
+  | .letL _ _ e, k, hp, x, hx => fnsE_good K e k (by simpa [constsS] using hp) x (by simpa [fnsS] using hx)
+  | .expr _ e, k, hp, x, hx => fnsE_good K e k (by simpa [constsS] using hp) x (by simpa [fnsS] using hx)
+  | .ret _ e, k, hp, x, hx => fnsE_good K e k (by simpa [constsS] using hp) x (by simpa [fnsS] using hx)
+  | .block _ body, k, hp, x, hx => fnsP_good K body k (by simpa [constsS] using hp) x (by simpa [fnsS] using hx)
+  | .loopS _ _ body, k, hp, x, hx => fnsP_good K body k (by simpa [constsS] using hp) x (by simpa [fnsS] using hx)
+  | .breakS .., _, _, x, hx | .continueS .., _, _, x, hx | .retN _, _, _, x, hx => by simp [fnsS] at hx
+  | .whileS _ _ c body, k, hp, x, hx => by
+    simp only [constsS] at hp
+    simp only [fnsS, List.mem_append] at hx
+    rcases hx with hx | hx
+    · exact fnsE_good K c k (poolAt_left hp) x hx
+    · exact fnsP_good K body _ (poolAt_right hp) x hx
+  | .ifS _ _ c thn els, k, hp, x, hx => by
+    simp only [constsS] at hp
+    simp only [fnsS, List.mem_append] at hx
+    rcases hx with (hx | hx) | hx
+    · exact fnsE_good K c k (poolAt_left (poolAt_left hp)) x hx
+    · exact fnsP_good K thn _ (poolAt_right (poolAt_left hp)) x hx
+    · refine fnsP_good K els _ ?_ x hx
+      have := poolAt_right hp
+      simpa [Nat.add_assoc] using this
+theorem fnsP_good (K : List Val) : ∀ (ss : List FStmt) (k : Nat), poolAt K k (constsP ss) → ∀ x ∈ fnsP k ss, GoodEntry K x
+  | [], _, _, x, hx => by simp [fnsP] at hx
+  | s :: rest, k, hp, x, hx => by
+    simp only [constsP] at hp
+    simp only [fnsP, List.mem_append] at hx
+    rcases hx with hx | hx
+    · exact fnsS_good K s k (poolAt_left hp) x hx
+    · exact fnsP_good K rest _ (poolAt_right hp) x hx
+end
+
+theorem fnsT_good (K : List Val) : ∀ (T : List FTop) (k : Nat), poolAt K k (constsT T) → ∀ x ∈ fnsT k T, GoodEntry K x
+  | [], _, _, x, hx => by simp [fnsT] at hx
+  | t :: rest, k, hp, x, hx => by
+    simp only [constsT] at hp
+    simp only [fnsT, List.mem_append] at hx
+    rcases hx with hx | hx
+    · cases t with
+      | stmt s => exact fnsS_good K s k (poolAt_left hp) x hx
+      | fnDef l gi code lines d =>
+        simp only [fnsTop, List.mem_append, List.mem_singleton] at hx
+        have hp' := poolAt_left hp
+        simp only [constsTop] at hp'
+        rcases hx with hx | hx
+        · exact fnsP_good K d.body k (poolAt_left hp') x hx
+        · subst hx
+          exact ⟨poolAt_left hp', rfl, rfl⟩
+      | fnSet ls l gi code lines d =>
+        simp only [fnsTop, List.mem_append, List.mem_singleton] at hx
+        have hp' := poolAt_left hp
+        simp only [constsTop] at hp'
+        rcases hx with hx | hx
+        · exact fnsP_good K d.body k (poolAt_left hp') x hx
+        · subst hx
+          exact ⟨poolAt_left hp', rfl, rfl⟩
+    · exact fnsT_good K rest _ (poolAt_right hp) x hx
+
+theorem lookup_entry : ∀ (L : List FnEntry) (fd : FnDef) (d : FDecl),
+    lookupFd fd (L.map (fun x => (x.1, x.2.1))) = some d →
+    ∃ kd, (fd, d, kd) ∈ L ∧ lookupFd fd (L.map (fun x => (x.1, compileFn x.2.2 x.2.1))) = some (compileFn kd d)
+  | [], _, _, h => by simp [lookupFd] at h
+  | (fd0, d0, k0) :: rest, fd, d, h => by
+    simp only [List.map_cons, lookupFd] at h ⊢
+    by_cases hfd : fd = fd0
+    · simp only [hfd, if_true, Option.some.injEq] at h ⊢
+      subst h
+      exact ⟨k0, by simp, rfl⟩
+    · simp only [hfd, if_false] at h ⊢
+      obtain ⟨kd, hm, hl⟩ := lookup_entry rest fd d h
+      exact ⟨kd, List.mem_cons_of_mem _ hm, hl⟩
+
+/-- the function constants, declarations and code of a compiled program are linked: every
+function literal of the program — at any nesting depth — has as its code the compiled body of
+its declaration, whose constants are in the pool where that code expects them -/
 theorem linked_program (T : List FTop) : Linked (phiT T) (constsT T) (codeT T) := by
   intro fd d h
-  exact linked_aux T 0 (constsT T) ⟨[], [], by simp, rfl⟩ fd d h
+  obtain ⟨kd, hm, hl⟩ := lookup_entry (fnsT 0 T) fd d h
+  obtain ⟨h1, h2, h3⟩ := fnsT_good (constsT T) T 0 ⟨[], [], by simp, rfl⟩ _ hm
+  exact ⟨kd, hl, h1, h2, h3⟩
 
 /-! ## the top-level code -/
 
 /-- the frame of the top-level program: no slots, nothing underneath, no callers -/
-def mainCtxt (M : List Instr) : Ctxt := ⟨M, ⟨[], [], 0, 0, 0⟩, [], []⟩
+def mainCtxt (M : List Instr) : Ctxt := ⟨M, ⟨[], [], 0, 0, 0⟩, 0, [], []⟩
 
-theorem agree_none (X : Ctxt) : Agree none X := by intro fd h; cases h
+theorem agree_none (X : Ctxt) : Agree none X := by intro fd id h; cases h
 
 theorem tops_correct {Φ : FnDef → Option FDecl} {K : List Val} {F : FnDef → Option (List Instr)} (hL : Linked Φ K F) (fuel : Nat) (X : Ctxt) :
-    ∀ (T : List FTop) (pos k : Nat) (g g' : List Val),
-    codeAt X.code pos (compileT pos k T) → poolAt K k (constsT T) → evalT Φ fuel g T = some g' →
-    FSteps K F (X.st pos [] ⟨[], g⟩) (X.st (pos + bytes (compileT pos k T)) [] ⟨[], g'⟩)
-  | [], pos, k, g, g', _, _, he => by
-    simp only [evalT, Option.some.injEq] at he
-    subst he
+    ∀ (T : List FTop) (pos k : Nat) (g g' : List Val) (hp hp' : List (List Val)),
+    codeAt X.code pos (compileT pos k T) → poolAt K k (constsT T) → evalT Φ fuel g hp T = some (g', hp') →
+    FSteps K F (X.st pos [] ⟨[], g, hp⟩) (X.st (pos + bytes (compileT pos k T)) [] ⟨[], g', hp'⟩)
+  | [], pos, k, g, g', hq, hq', _, _, he => by
+    simp only [evalT, Option.some.injEq, Prod.mk.injEq] at he
+    obtain ⟨rfl, rfl⟩ := he
     exact (FSteps.refl _).toPc (by simp [compileT, bytes])
-  | .stmt s :: rest, pos, k, g, g', h, hp, he => by
+  | .stmt s :: rest, pos, k, g, g', hq, hq', h, hp, he => by
     simp only [compileT, compileTop] at h ⊢
     simp only [constsT, constsTop] at hp
     simp only [evalT] at he
-    cases hs : evalS Φ fuel none ⟨[], g⟩ s with
+    cases hs : evalS Φ fuel none ⟨[], g, hq⟩ s with
     | none => simp [hs] at he
     | some r =>
       obtain ⟨σ1, f1, v1⟩ := r
@@ -215,19 +385,19 @@ theorem tops_correct {Φ : FnDef → Option FDecl} {K : List Val} {F : FnDef →
       | normal =>
         simp only [hs] at he
         have hl := (pres_all (Φ := Φ) fuel).S _ _ _ _ _ _ hs
-        have hσ1 : σ1 = ⟨[], σ1.g⟩ := by
+        have hσ1 : σ1 = ⟨[], σ1.g, σ1.h⟩ := by
           cases σ1 with
-          | mk l1 g1 =>
+          | mk l1 g1 h1 =>
             have : l1 = [] := by simpa using hl
             simp [this]
-        have s1 := (sound_all hL fuel).S s X pos k [] [] none ⟨[], g⟩ σ1 .normal v1 (codeAt_left h) (poolAt_left hp) (agree_none X) hs
-        have s2 := tops_correct hL fuel X rest _ _ σ1.g g' (codeAt_right h) (poolAt_right hp) he
+        have s1 := (sound_all hL fuel).S s X pos k [] [] none ⟨[], g, hq⟩ σ1 .normal v1 (codeAt_left h) (poolAt_left hp) (agree_none X) hs
+        have s2 := tops_correct hL fuel X rest _ _ σ1.g g' σ1.h hq' (codeAt_right h) (poolAt_right hp) he
         rw [hσ1] at s1
         exact (s1.trans s2).toPc (by simp [bytes_append, Nat.add_assoc])
       | brk l => simp [hs] at he
       | cont l => simp [hs] at he
       | ret v => simp [hs] at he
-  | .fnDef l gi code lines d :: rest, pos, k, g, g', h, hp, he => by
+  | .fnDef l gi code lines d :: rest, pos, k, g, g', hq, hq', h, hp, he => by
     simp only [compileT, compileTop] at h ⊢
     simp only [constsT, constsTop] at hp
     simp only [evalT] at he
@@ -238,16 +408,16 @@ theorem tops_correct {Φ : FnDef → Option FDecl} {K : List Val} {F : FnDef →
         have := codeAt_right (a := [Instr.closure (k + (constsP d.body).length) 0]) (b := [.defGlobal gi]) (codeAt_left h)
         simpa [bytes, Instr.size] using this
       have hk : K[k + (constsP d.body).length]? = some (.func (mkFd code lines d)) := poolAt_get (poolAt_right (poolAt_left hp))
-      have s1 := FSteps.one (fstep_closure (K := K) (F := F) (X := X) (ops := []) (σ := ⟨[], g⟩) hc hk)
-      have s2 := FSteps.one (fs_defGlobal (K := K) (F := F) (X := X) (v := .clos (mkFd code lines d) [] 0) (ops := []) (σ := ⟨[], g⟩) hdg hi)
-      have s3 := tops_correct hL fuel X rest _ _ _ g' (codeAt_right h) (poolAt_right hp) he
+      have s1 := FSteps.one (fstep_closure (K := K) (F := F) (X := X) (vs := []) (ops := []) (σ := ⟨[], g, hq⟩) hc hk)
+      have s2 := FSteps.one (fs_defGlobal (K := K) (F := F) (X := X) (v := .clos (mkFd code lines d) [] hq.length) (ops := []) (σ := ⟨[], g, hq ++ [[]]⟩) hdg hi)
+      have s3 := tops_correct hL fuel X rest _ _ _ g' _ hq' (codeAt_right h) (poolAt_right hp) he
       have hb : bytes [Instr.closure (k + (constsP d.body).length) 0, Instr.defGlobal gi] = 7 := by simp [bytes, Instr.size]
       rw [hb] at s3
-      have s12 : FSteps K F (X.st pos [] ⟨[], g⟩) (X.st (pos + 7) [] ⟨[], g.set gi (.clos (mkFd code lines d) [] 0)⟩) :=
+      have s12 : FSteps K F (X.st pos [] ⟨[], g, hq⟩) (X.st (pos + 7) [] ⟨[], g.set gi (.clos (mkFd code lines d) [] hq.length), hq ++ [[]]⟩) :=
         (s1.trans s2).toPc (by omega)
       exact (s12.trans s3).toPc (by simp [bytes, Instr.size]; omega)
     · simp [hi] at he
-  | .fnSet ls l gi code lines d :: rest, pos, k, g, g', h, hp, he => by
+  | .fnSet ls l gi code lines d :: rest, pos, k, g, g', hq, hq', h, hp, he => by
     simp only [compileT, compileTop] at h ⊢
     simp only [constsT, constsTop] at hp
     simp only [evalT] at he
@@ -257,28 +427,33 @@ theorem tops_correct {Φ : FnDef → Option FDecl} {K : List Val} {F : FnDef →
       obtain ⟨hsg, h3⟩ := codeAt_cons h2
       simp only [Instr.size] at hsg h3
       have hk : K[k + (constsP d.body).length]? = some (.func (mkFd code lines d)) := poolAt_get (poolAt_right (poolAt_left hp))
-      have s1 := FSteps.one (fstep_closure (K := K) (F := F) (X := X) (ops := []) (σ := ⟨[], g⟩) hc hk)
-      have s2 := FSteps.one (fs_setGlobal (K := K) (F := F) (X := X) (v := .clos (mkFd code lines d) [] 0) (ops := []) (σ := ⟨[], g⟩) hsg hi)
-      have s2' := FSteps.one (fs_pop (K := K) (F := F) (X := X) (v := .clos (mkFd code lines d) [] 0) (ops := [])
-        (σ := ⟨[], g.set gi (.clos (mkFd code lines d) [] 0)⟩) h3)
-      have s3 := tops_correct hL fuel X rest _ _ _ g' (codeAt_right h) (poolAt_right hp) he
+      have s1 := FSteps.one (fstep_closure (K := K) (F := F) (X := X) (vs := []) (ops := []) (σ := ⟨[], g, hq⟩) hc hk)
+      have s2 := FSteps.one (fs_setGlobal (K := K) (F := F) (X := X) (v := .clos (mkFd code lines d) [] hq.length) (ops := []) (σ := ⟨[], g, hq ++ [[]]⟩) hsg hi)
+      have s2' := FSteps.one (fs_pop (K := K) (F := F) (X := X) (v := .clos (mkFd code lines d) [] hq.length) (ops := [])
+        (σ := ⟨[], g.set gi (.clos (mkFd code lines d) [] hq.length), hq ++ [[]]⟩) h3)
+      have s3 := tops_correct hL fuel X rest _ _ _ g' _ hq' (codeAt_right h) (poolAt_right hp) he
       have hb : bytes [Instr.closure (k + (constsP d.body).length) 0, Instr.setGlobal gi, Instr.pop] = 8 := by simp [bytes, Instr.size]
       rw [hb] at s3
-      have s12 : FSteps K F (X.st pos [] ⟨[], g⟩) (X.st (pos + 8) [] ⟨[], g.set gi (.clos (mkFd code lines d) [] 0)⟩) :=
+      have s12 : FSteps K F (X.st pos [] ⟨[], g, hq⟩) (X.st (pos + 8) [] ⟨[], g.set gi (.clos (mkFd code lines d) [] hq.length), hq ++ [[]]⟩) :=
         ((s1.trans s2).trans s2').toPc (by omega)
       exact (s12.trans s3).toPc (by simp [bytes, Instr.size]; omega)
     · simp [hi] at he
 
-/-- **whole programs with first-order functions**: every terminating run (any fuel) of every
+/-- **whole programs with functions and closures**: every terminating run (any fuel) of every
 program — top-level statements, function definitions, calls, recursion through `CurrClosure`
-and through globals — is reproduced by the machine on the compiled program, from the empty
-stack with no frame to the empty stack with no frame, with the globals of the reference
-evaluation.  Main code: the program; pool: its constants; code memory: its function constants. -/
-theorem program_correct_fn (fuel : Nat) (T : List FTop) (g g' : List Val) (he : evalT (phiT T) fuel g T = some g') :
+and through globals, function literals nested at any depth that capture parameters, locals,
+captured values and the own name of the functions enclosing them, closures returned, stored and
+called after the function that created them has returned, assignments to captured copies — is
+reproduced by the machine on the compiled program, from the empty stack with no frame to the
+empty stack with no frame, with the globals AND the closure objects (the captured values of
+every closure created during the run) of the reference evaluation.  Main code: the program;
+pool: its constants; code memory: its function constants. -/
+theorem program_correct_fn (fuel : Nat) (T : List FTop) (g g' : List Val) (h h' : List (List Val))
+    (he : evalT (phiT T) fuel g h T = some (g', h')) :
     FSteps (constsT T) (codeT T)
-      ⟨⟨compileT 0 0 T, ⟨[], [], 0, 0, 0⟩, 0, 0⟩, [], g, []⟩
-      ⟨⟨compileT 0 0 T, ⟨[], [], 0, 0, 0⟩, bytes (compileT 0 0 T), 0⟩, [], g', []⟩ := by
-  have := tops_correct (linked_program T) fuel (mainCtxt (compileT 0 0 T)) T 0 0 g g'
+      ⟨⟨compileT 0 0 T, ⟨[], [], 0, 0, 0⟩, 0, 0, 0⟩, [], g, h, []⟩
+      ⟨⟨compileT 0 0 T, ⟨[], [], 0, 0, 0⟩, 0, bytes (compileT 0 0 T), 0⟩, [], g', h', []⟩ := by
+  have := tops_correct (linked_program T) fuel (mainCtxt (compileT 0 0 T)) T 0 0 g g' h h'
     ⟨[], [], by simp [mainCtxt], rfl⟩ ⟨[], [], by simp, rfl⟩ he
   simpa [Ctxt.st, Ctxt.at, mainCtxt] using this
 
@@ -286,7 +461,7 @@ theorem program_correct_fn (fuel : Nat) (T : List FTop) (g g' : List Val) (he : 
 callee's whole activation are gone when the call has returned; the operands underneath and the
 caller's local slots are as the reference evaluation says (the slots' number is unchanged) -/
 theorem call_correct {Φ : FnDef → Option FDecl} {K : List Val} {F : FnDef → Option (List Instr)} (hL : Linked Φ K F)
-    (fuel : Nat) (l : Nat) (f : FExpr) (args : FArgs) (X : Ctxt) (pos k : Nat) (ops : List Val) (cx : Option FnDef) (σ σ' : Sto) (v : Val)
+    (fuel : Nat) (l : Nat) (f : FExpr) (args : FArgs) (X : Ctxt) (pos k : Nat) (ops : List Val) (cx : Option (FnDef × Nat)) (σ σ' : Sto) (v : Val)
     (h : codeAt X.code pos (compileE pos k (.call l f args))) (hp : poolAt K k (constsE (.call l f args))) (hx : Agree cx X)
     (he : evalE Φ fuel cx σ (.call l f args) = some (v, σ')) :
     FSteps K F (X.st pos ops σ) (X.st (pos + bytes (compileE pos k (.call l f args))) (v :: ops) σ') ∧ σ'.l.length = σ.l.length :=
